@@ -234,7 +234,9 @@ C02_RunSticky == [][(ev'.op = "is_running" /\ ev'.hadFalse) => ev'.res = FALSE]_
 FlagsSound == \A o \in Objs : (Used(o) /\ (objs[o].gone \/ objs[o].reused)) => ~Truth(o)
 
 (* ---------------- transition dump for the replayer ---------------------- *)
-DumpL == PrintT(<<"TR", ToJson(view), ToJson(ev'), ToJson(view'), TLCGet("level")>>)
+\* canonical rendering for the dump: sets as boolean functions
+viewJ == <<kvars, bootMemo, [p \in Pids |-> p \in pidsReused], objs>>
+DumpL == PrintT(<<"TR", ToJson(viewJ), ToJson(ev'), ToJson(viewJ'), TLCGet("level")>>)
 
 Bound == TRUE
 =============================================================================
